@@ -4,6 +4,7 @@ electronic energies, finite-difference formulas (DESIGN §3 C20)."""
 from __future__ import annotations
 
 import ast
+import re
 
 import sympy as sp
 
@@ -68,6 +69,7 @@ def run(rep: core.Report):
     _r20f(rep)
     _r20g(rep)
     _r20h(rep)
+    _r20k(rep)
     from rules import shared_bcast
 
     shared_bcast.run(rep, "R20j", [r for r in ["phonopy/qha/core.py", "phonopy/qha/eos.py", "phonopy/qha/electron.py"] if (core.REPO / r).is_file()])
@@ -76,25 +78,28 @@ def run(rep: core.Report):
 def _r20b(rep):
     for cls, attr in (("BulkModulus", "self._energies"), ("QHA", "self._electronic_energies")):
         init = core.find_def(QHA, f"{cls}.__init__")
-        hits = [s for s in ast.walk(init) if isinstance(s, ast.AugAssign) and core.src(s.target) == attr]
-        ok = False
-        text = "<no pressure term>"
-        if len(hits) == 1:
-            s = hits[0]
-            text = core.src(s)
-            guard = getattr(s, "_parent", None)
-            ok = (
-                isinstance(s.op, ast.Add)
-                and symalg.same(symalg.open_expr(core.src(s.value)), symalg.open_expr("self._volumes * pressure / EVAngstromToGPa"))[0]
-                and isinstance(guard, ast.If)
-                and core.src(guard.test) == "pressure is not None"
-            )
-            # the augmented array must be a private copy made in the same constructor
-            copies = [x for x in ast.walk(init) if isinstance(x, ast.Assign) and core.src(x.targets[0]) == attr and core.src(x.value).startswith("np.array(")]
-            ok = ok and len(copies) == 1 and copies[0].lineno < s.lineno
-        rep.instance("R20b", QHA, f"{cls}.__init__", text, ok,
-                     "PV term is not '+= self._volumes * pressure / EVAngstromToGPa' under 'pressure is not None' on a private np.array copy",
-                     line=hits[0].lineno if hits else init.lineno, obligation=True)
+        tr = symalg.OpenPyTranslator(where=f"{cls}.__init__")
+        env = tr.summary(init)
+        val = env.get(attr)
+        if val is None:
+            raise AnalysisError(f"{cls}.__init__: {attr} is no longer set")
+        P, E = sp.Symbol("pressure"), sp.Symbol("EVAngstromToGPa")
+        # the pressure enters linearly with coefficient V / EVAngstromToGPa, V the volumes (in whatever order they are kept)
+        try:
+            coeff = sp.simplify(sp.diff(val, P) * E)
+            lin = sp.simplify(sp.diff(val, P, 2)) == 0
+        except Exception:
+            coeff, lin = None, False
+        ok_pv = lin and coeff is not None and coeff != 0 and not coeff.has(P) and not coeff.has(E) and "volumes" in str(coeff) and not isinstance(coeff, (sp.Add, sp.Pow)) and (not isinstance(coeff, sp.Mul))
+        # under 'pressure is not None' (or a zero term otherwise): the term must be guarded, not unconditional
+        guarded = any(isinstance(n, ast.If) and "pressure" in core.src(n.test) and "None" in core.src(n.test) for n in ast.walk(init))
+        # the array that receives it is a private copy made in this constructor
+        rest = sp.simplify(val - sp.diff(val, P) * P) if lin else val
+        pnames = {a.arg for a in init.args.args} - {"self", "volumes", "pressure"}
+        private = any(m_.group(1) in pnames for m_ in re.finditer(r"np\.(?:array|copy)\((\w+)", str(rest)))
+        rep.instance("R20b", QHA, f"{cls}.__init__", f"{attr} = {core.norm(str(val), 90)}", ok_pv and guarded and private,
+                     f"the stored energies are not 'private copy of the input + V * pressure / EVAngstromToGPa under pressure is not None' (coefficient of the pressure: {coeff}; guarded: {guarded}; private copy: {private})",
+                     line=init.lineno, obligation=True)
     u = symalg.fold_constants("phonopy/units.py")
     ok = "EVAngstromToGPa" in u and abs(u["EVAngstromToGPa"] - u["EV"] * 1e21) <= 1e-12 * u["EV"] * 1e21
     rep.instance("R20b", "phonopy/units.py", "EVAngstromToGPa", "EVAngstromToGPa == EV * 1e21 (eV/A^3 -> GPa)", ok,
@@ -131,7 +136,14 @@ def _r20c(rep):
                  "temperature label does not use the same index as the energies", line=ts[0].lineno if ts else loop.lineno, obligation=True)
     init = core.find_def(QHA, "QHA.__init__")
     fp = [s for s in ast.walk(init) if isinstance(s, ast.Assign) and core.src(s.targets[0]) == "self._fe_phonon"]
-    rep.instance("R20c", QHA, "QHA.__init__", core.src(fp[0]) if fp else "<vanished>", bool(fp) and symalg.same(symalg.open_expr(core.src(fp[0].value)), symalg.open_expr("np.array(fe_phonon) / EvTokJmol"))[0],
+    ok_fp = False
+    if fp:
+        e_ = symalg.open_expr(core.src(fp[0].value))
+        Ev = sp.Symbol("EvTokJmol")
+        r_ = sp.simplify(e_ * Ev)
+        # np.array(fe_phonon), possibly with its volume axis permuted, divided by EvTokJmol exactly once
+        ok_fp = not r_.has(Ev) and "fe_phonon" in str(r_) and not isinstance(r_, (sp.Add, sp.Mul, sp.Pow))
+    rep.instance("R20c", QHA, "QHA.__init__", core.src(fp[0]) if fp else "<vanished>", ok_fp,
                  "phonon free energy (kJ/mol) is not converted to eV by / EvTokJmol before being added to electronic energies (eV)", line=fp[0].lineno if fp else init.lineno, obligation=True)
 
 
@@ -482,6 +494,79 @@ def _r20i(rep):
             ok = bool(forced.get(attr)) and all(forced[attr])
             rep.instance("R20i", QHA, core.qualname_of(core.enclosing_function(c)), core.norm(core.src(c), 80), ok,
                          f"the array takes the dtype of self.{attr}, which is stored without an explicit float dtype: with integer input (np.arange(0, 310, 10), a list of ints) every result written into it is truncated to an integer (a thermal expansion of 1e-5 becomes 0) and nothing refuses", line=c.lineno, obligation=True)
+
+
+
+def _r20k(rep):
+    """Row i of every volume-dependent input belongs to volume i: arrays combined or stored side by side are in one order."""
+    rep.rule("R20k", "order of the volume points: in QHA.__init__ and BulkModulus.__init__ every volume-indexed array (volumes, electronic energies, Cv, entropy, phonon free energy, the PV term) that is added to another or stored next to it is in the same order -- all as given by the caller, or all permuted by the same argsort of the volumes", 2)
+    VOL = {"volumes", "electronic_energies", "energies", "cv", "entropy", "fe_phonon"}
+    for qn in ("QHA.__init__", "BulkModulus.__init__"):
+        fn = core.find_def(QHA, qn)
+        params = {a.arg for a in fn.args.args}
+        env: dict = {}      # name / self attribute -> order domain: 'caller' | ('sorted', key) | None
+        perms: dict = {}    # local -> text of the array its argsort was taken of
+        problems = []
+
+        def dom(e):
+            if isinstance(e, ast.Name):
+                if e.id in env:
+                    return env[e.id]
+                return "caller" if e.id in params & VOL else None
+            if isinstance(e, ast.Attribute) and core.src(e) in env:
+                return env[core.src(e)]
+            if isinstance(e, ast.Call) and core.src(e.func) in ("np.array", "np.asarray", "np.ascontiguousarray") and e.args:
+                return dom(e.args[0])
+            if isinstance(e, ast.Call) and isinstance(e.func, ast.Attribute) and e.func.attr in ("copy", "astype"):
+                return dom(e.func.value)
+            if isinstance(e, ast.Subscript):
+                parts = e.slice.elts if isinstance(e.slice, ast.Tuple) else [e.slice]
+                last = parts[-1]
+                base = dom(e.value)
+                if isinstance(last, ast.Name) and last.id in perms and base == "caller":
+                    return ("sorted", perms[last.id])
+                if isinstance(last, ast.Call) and core.src(last.func) == "np.argsort" and base == "caller":
+                    return ("sorted", core.src(last.args[0]))
+                return base
+            if isinstance(e, ast.BinOp):
+                a, b = dom(e.left), dom(e.right)
+                if a is not None and b is not None and a != b:
+                    problems.append((e, a, b))
+                return a if a is not None else b
+            if isinstance(e, ast.UnaryOp):
+                return dom(e.operand)
+            if isinstance(e, ast.IfExp):
+                a, b = dom(e.body), dom(e.orelse)
+                return a if a is not None else b
+            return None
+
+        def walk(stmts):
+            for st in stmts:
+                if isinstance(st, ast.Assign) and len(st.targets) == 1:
+                    v = st.value
+                    if isinstance(v, ast.Call) and core.src(v.func) == "np.argsort" and v.args and isinstance(st.targets[0], ast.Name) and dom(v.args[0]) == "caller":
+                        perms[st.targets[0].id] = "volumes"
+                        continue
+                    d = dom(v)
+                    key = st.targets[0].id if isinstance(st.targets[0], ast.Name) else core.src(st.targets[0])
+                    old = env.get(key)
+                    env[key] = d if d is not None else (old if isinstance(st.targets[0], ast.Name) and False else d)
+                elif isinstance(st, ast.AugAssign):
+                    a, b = dom(st.target), dom(st.value)
+                    if a is not None and b is not None and a != b:
+                        problems.append((st, a, b))
+                elif isinstance(st, ast.If):
+                    walk(st.body)
+                    walk(st.orelse)
+
+        walk(fn.body)
+        stored = {k: v for k, v in env.items() if k.startswith("self.") and v is not None}
+        kinds = {("sorted" if isinstance(v, tuple) else v) for v in stored.values()}
+        show = lambda d: "the order given by the caller" if d == "caller" else "ascending volume (argsort)"
+        rep.instance("R20k", QHA, qn, f"element-wise combinations of volume-indexed arrays: {len(problems)} with different orders", not problems,
+                     (f"'{core.norm(core.src(problems[0][0]), 70)}' combines an array in {show(problems[0][1])} with one in {show(problems[0][2])}: row j of one is added to row j of the other although they belong to different volumes -- with pressure and volumes not listed in ascending order the PV term lands on the wrong energies and V(T), G(T), B(T) are wrong" if problems else ""), line=(problems[0][0].lineno if problems else fn.lineno), obligation=True)
+        rep.instance("R20k", QHA, qn, f"stored volume-indexed attributes {sorted(stored)} share one order", len(kinds) <= 1,
+                     f"the stored arrays are in different orders ({ {k: show(v) for k, v in stored.items()} }): volume i no longer goes with row i of the others", line=fn.lineno, obligation=True)
 
 
 def _r20f(rep):
